@@ -9,12 +9,12 @@ from . import bip_common as B
 from .unify_common import struct_eq, build_pterm
 
 ANCHORS = ['make_linked_list', 'parse_linked_list', 'link_front', 'recreate_variables', 'next_solution_append', 'filter']
-WITNESSES = {'all': ['constructor', 'constructor-splice', 'constructor-tail', 'renamed', 'parsed', 'append-result', 'filter-result', 'list-valued-last', 'empty-list-last']}
+WITNESSES = {'all': ['constructor', 'constructor-splice', 'constructor-tail', 'renamed', 'parsed', 'append-result', 'filter-result', 'chained-bound-tails', 'list-valued-last', 'empty-list-last']}
 OPTS = {'quick': {'selfcheck_mod': 25, 'budget_s': 280}, 'thorough': {'selfcheck_mod': 200, 'budget_s': 2400}}
 BOUNDS = {
-    'quick': 'element sequences of length 0-3 over {a, symbolic i64, 1.5, $V1, $_, f(a), [b], [[c] | $V2]-free nested [b, c], []} and of length 4-5 over {a, [b], [], $V1}, with and without a tail variable; '
+    'quick': 'element sequences of length 0-3 over {a, symbolic i64, 1.5, $V1, $_, f(a), [b], [[c] | $V2]-free nested [b, c], []} and of length 4-5 over {a, [b], [], $V1}, with and without a tail variable; 6 sequences with atoms outside ASCII (é, ü, Δ, 日本) and a tail variable named $Ñu; '
              'for each: make_linked_list (vbar false/true; a list-valued last term is the documented splice), recreate_variables, parse_linked_list of the canonical text, '
-             'append(L, Out), include($_, L, Out); every result must be well formed (node chain ending in the empty node, count = remaining elements, tail_var only last) and hold '
+             'append(L, Out), include($_, L, Out), the latter two also with L given in three pieces joined by two bound tail variables; every result must be well formed (node chain ending in the empty node, count = remaining elements, tail_var only last) and hold '
              'exactly the expected elements; it is also unified with the reference list in both orders',
     'thorough': 'lengths 0-4 over the full element set, 5 over the reduced one, plus append of two lists and exclude with a non-matching filter',
 }
@@ -44,6 +44,21 @@ def cases(tier, seed):
             for fam in ('mk', 'recreate', 'parse', 'append', 'include'):
                 if tier == 'quick' and len(s) == 3 and fam in ('append', 'include') and tail: continue
                 out.append({'id': '%s [%s%s]' % (fam, ', '.join(U.text(x) for x in s), ' | $V3' if tail else ''), 'fam': fam, 'elems': s, 'tail': tail})
+    # append / include on lists whose tail variable is bound to a list whose tail variable is bound again
+    for n in (3, 4):
+        for s in itertools.product(ELEMS_SMALL[:3] + [['i']], repeat=n):
+            for split in ((1, 2), (1, 3), (2, 3), (0, 2)):
+                if split[1] > n: continue
+                for fam in ('append', 'include'):
+                    if fam == 'include' and (sum(map(ord, repr(s))) + split[0]) % 3: continue
+                    out.append({'id': '%s [%s] split %s' % (fam, ', '.join(U.text(x) for x in s), split), 'fam': fam, 'elems': list(s), 'tail': False, 'split': list(split)})
+    # atoms and a tail variable whose names are outside ASCII (2- and 3-byte characters)
+    na = [[['q', 'é']], [['q', 'é'], ['q', 'ü']], [['a'], ['q', '日本']], [['l', 'p', [['q', 'é']], None], ['b']], [['q', 'Δ'], ['i'], ['q', 'é']], [['a'], ['b']]]
+    for s in na:
+        for tailname in (None, '$V3', '$Ñu'):
+            for fam in ('mk', 'recreate', 'parse', 'append'):
+                if tailname and fam == 'append': continue
+                out.append({'id': '%s [%s%s]' % (fam, ', '.join(U.text(x) for x in s), ' | ' + tailname if tailname else ''), 'fam': fam, 'elems': s, 'tail': bool(tailname), 'tailname': tailname})
     return out
 
 
@@ -104,6 +119,8 @@ def run(drv, case):
     m = drv.m
     elems = [U.inst(m, e, 'e%d' % i) for i, e in enumerate(case['elems'])]
     tail = U.inst(m, TAIL, 't') if case['tail'] else None
+    tailname = case.get('tailname') or '$V3'
+    if tail is not None: tail = ('var', tail[1], tailname)
     ael = [build_pterm(e) for e in elems]
     fam = case['fam']
     desc = case['id']
@@ -145,7 +162,7 @@ def run(drv, case):
         tags.append('renamed')
         check_list(m, got, ael, tail, 'renamed', desc, rename=True)
     elif fam == 'parse':
-        text = '[' + ', '.join(canon_text(e) for e in case['elems']) + (' | $V3' if case['tail'] else '') + ']'
+        text = '[' + ', '.join(canon_text(e) for e in case['elems']) + (' | ' + tailname if case['tail'] else '') + ']'
         # symbolic leaves are concretised for the text (digits of the integer)
         vals = {}
         conc = []
@@ -162,7 +179,7 @@ def run(drv, case):
                         v = m.concretize(v)
                     parts.append(str(v))
                 else: parts.append(canon_text(sh))
-            text = '[' + ', '.join(parts) + (' | $V3' if case['tail'] else '') + ']'
+            text = '[' + ', '.join(parts) + (' | ' + tailname if case['tail'] else '') + ']'
         res, out = drv.parse('list', text)
         if out[0] != 'ok':
             raise Violation('parsed:rejected', '%s: parse_linked_list rejects %r' % (desc, text))
@@ -176,6 +193,15 @@ def run(drv, case):
         ss = drv.ss0()
         out = ('var', 9, '$Out')
         L = ref
+        if case.get('split'):
+            i, j = case['split']
+            env = B.Env(drv, first_id=20)
+            tv, uv = env.var('$T'), env.var('$U')
+            env.bind(uv, ('plist', tuple(elems[j:]), None))
+            env.bind(tv, ('plist', tuple(elems[i:j]), uv))
+            L = ('plist', tuple(elems[:i]), tv) if i else tv
+            ss = env.ss
+            tags.append('chained-bound-tails')
         goal = ('gb', 'append', (L, out)) if fam == 'append' else ('gb', 'include', (('anon',), L, out))
         r1, r2 = B.run_goal(drv, kb, goal, ss)
         if r1.h is None:
